@@ -148,7 +148,7 @@ def mark_message_processed(
         INSERT OR IGNORE INTO processed_messages (
             message_id, processed_at, handler_type, execution_id
         ) VALUES (
-            :message_id, datetime('now', 'utc'), :handler_type, :execution_id
+            :message_id, datetime('now'), :handler_type, :execution_id
         )
         """,
         {
